@@ -735,7 +735,7 @@ static void do_query(State& S) {
     // only arena memory is registered as heap region; OS-allocated segments are not => informational only
   }
   S.ep_count[EP_is_in_heap_region]++;
-  if (b->heap >= 0 && ((uintptr_t)b->p & 7) == 0 && !S.cfg.abandon_ok) {
+  if (b->heap >= 0 && !S.cfg.abandon_ok) {      // (also for blocks whose pointer is not word aligned: aligned_at with an odd offset)
     for (size_t i = 0; i < S.heaps.size(); i++) {
       if (!S.heaps[i].alive) continue;
       bool expect = ((int)i == b->heap);
@@ -981,15 +981,18 @@ static void do_thread_alloc_exit(State& S, std::vector<vf::Blk*>* group = nullpt
   try {
   std::thread t([&]() {
     vf_rng_t r; vf_rng_seed(&r, tseed);
+    // a third of the threads also use a first-class heap of their own (which may not come into being when the OS refuses memory) and delete it before they terminate
+    mi_heap_t* th = (vf_rng_chance(&r, 1, 3) ? mi_heap_new() : nullptr);
     for (size_t i = 0; i < k; i++) {
       size_t n = (vf_rng_chance(&r, 3, 4) ? (size_t)vf_rng_below(&r, 2048) : (size_t)vf_rng_below(&r, cap));
       bool z = vf_rng_chance(&r, 1, 2) != 0;
-      void* p = (z ? mi_zalloc(n) : mi_malloc(n));
+      void* p = (th != nullptr && (i & 1) ? (z ? mi_heap_zalloc(th, n) : mi_heap_malloc(th, n)) : (z ? mi_zalloc(n) : mi_malloc(n)));
       if (p == nullptr) continue;
       ThreadBlock tb; tb.p = p; tb.n = n; tb.zero = z; out.push_back(tb);
     }
     // free some of them again so that pages are partially used when the thread exits
     for (size_t i = 0; i < out.size(); ) { if (vf_rng_chance(&r, 1, 3)) { memset(out[i].p, 0xEE, out[i].n); mi_free(out[i].p); out[i] = out.back(); out.pop_back(); } else i++; }
+    if (th != nullptr) mi_heap_delete(th);
   });
   t.join();
   } catch (const std::system_error& e) { vf_trip("harness", "", "cannot create a thread: %s", e.what()); }
